@@ -583,4 +583,107 @@ theorem exists_snoc (l : List Nat) (hl : l ≠ []) : ∃ cs c, l = cs ++ [c] := 
   · exact absurd h hl
   · exact ⟨cs, c, by simpa using h⟩
 
+/-! ## `New` and `Of` build one cycle carrying the given values -/
+
+theorem cyc_frame (h h' : Heap) (c : List Nat) (hc : Cyc h c) (hsz : h.size ≤ h'.size)
+    (hnx : ∀ k ∈ c, h'.nx k = h.nx k) : Cyc h' c :=
+  ⟨hc.ne, (lk_congr h h' c _ hnx).mpr hc.lk, hc.nodup, fun i hi => Nat.lt_of_lt_of_le (hc.bound i hi) hsz⟩
+
+/-- one iteration of the loop of `New`: the fresh cell is inserted directly after `r` -/
+theorem newStep_cyc (h : Heap) (hi : Inv h) (r : Nat) (as : List Nat) (hc : Cyc h (r :: as)) :
+    Cyc (newLoop 1 h r) (r :: h.size :: as) ∧ Inv (newLoop 1 h r) ∧ (newLoop 1 h r).size = h.size + 1 := by
+  have hr : r < h.size := hc.bound r (by simp)
+  obtain ⟨i1, s1, e1, n1, p1, f1⟩ := newRing_inv h hi
+  have hr1 : r < h.newRing.1.size := by omega
+  have hre : r ≠ h.size := by omega
+  have hl := newLoop_inv 1 h r hi hr
+  refine ⟨?_, hl.1, hl.2⟩
+  have c1 : Cyc h.newRing.1 (r :: as) :=
+    cyc_frame h _ _ hc (by omega) (fun k hk => (f1 k (hc.bound k hk)).1)
+  have c2 : Cyc h.newRing.1 ([] ++ [h.size]) :=
+    ⟨by simp, by simp [Lk, n1], by simp, by intro i hi; simp at hi; omega⟩
+  have := exchange_merge h.newRing.1 (newLoop 1 h r) r h.size as [] (by rw [hl.2, s1]) ?_ c1 c2
+    (by intro x hx; have := hc.bound x hx; simp; omega)
+  · simpa using this
+  · intro k
+    simp only [newLoop, e1, nx_setNext, nx_setPrev, size_setNext, size_setPrev, n1]
+    by_cases h1 : k = r
+    · simp [h1, hr1]
+    · by_cases h2 : k = h.size <;> simp [h1, h2, s1, hre.symm]
+
+theorem newLoop_succ (k : Nat) (h : Heap) (r : Nat) : newLoop (k + 1) h r = newLoop k (newLoop 1 h r) r := rfl
+
+theorem newLoop_cyc : ∀ (k : Nat) (h : Heap) (r : Nat) (as : List Nat), Inv h → Cyc h (r :: as) →
+    ∃ mid, mid.length = k ∧ Cyc (newLoop k h r) (r :: (mid ++ as)) ∧ Inv (newLoop k h r) := by
+  intro k
+  induction k with
+  | zero => intro h r as hi hc; exact ⟨[], rfl, by simpa [newLoop] using hc, hi⟩
+  | succ k ih =>
+    intro h r as hi hc
+    obtain ⟨c1, i1, _⟩ := newStep_cyc h hi r as hc
+    obtain ⟨mid, ml, c2, i2⟩ := ih (newLoop 1 h r) r (h.size :: as) i1 c1
+    refine ⟨mid ++ [h.size], by simp [ml], ?_, ?_⟩
+    · rw [newLoop_succ]; simpa using c2
+    · rw [newLoop_succ]; exact i2
+
+theorem ofLoop_spec : ∀ (vs : List Int) (c : List Nat) (h : Heap) (e : Nat), Lk h c e → c.Nodup →
+    c.length = vs.length → (∀ i ∈ c, i < h.vals.length) →
+    (ofLoop vs h (c.headD e)).next = h.next ∧ (ofLoop vs h (c.headD e)).prev = h.prev ∧
+    c.map (ofLoop vs h (c.headD e)).val = vs ∧ (∀ j, j ∉ c → (ofLoop vs h (c.headD e)).val j = h.val j) := by
+  intro vs
+  induction vs with
+  | nil =>
+    intro c h e _ _ hl _
+    have : c = [] := List.length_eq_zero_iff.mp hl
+    subst this; simp [ofLoop]
+  | cons v vs ih =>
+    intro c h e hlk hn hl hb
+    cases c with
+    | nil => simp at hl
+    | cons a l =>
+      rw [List.nodup_cons] at hn
+      simp only [Lk] at hlk
+      simp only [List.headD_cons, ofLoop, nx_setVal, hlk.1]
+      have hlk' : Lk (h.setVal a v) l e := (lk_congr h (h.setVal a v) l e (fun _ _ => rfl)).mpr hlk.2
+      obtain ⟨e1, e2, e3, e4⟩ := ih l (h.setVal a v) e hlk' hn.2 (by simpa using hl)
+        (fun i hi => by simpa [Heap.setVal] using hb i (by simp [hi]))
+      refine ⟨e1, e2, ?_, ?_⟩
+      · simp only [List.map_cons, e3]
+        rw [e4 a hn.1]
+        have : a < h.vals.length := hb a (by simp)
+        simp [Heap.val, Heap.setVal, List.getD_eq_getElem?_getD, this]
+      · intro j hj
+        simp only [List.mem_cons, not_or] at hj
+        rw [e4 j hj.2]
+        simp [Heap.val, Heap.setVal, List.getD_eq_getElem?_getD, List.getElem?_set, Ne.symm hj.1]
+
+theorem of_eq (h : Heap) (vs : List Int) (h1 : Heap) (r : Nat) (hn : new h vs.length = (h1, some r)) :
+    of h vs = (ofLoop vs h1 r, some r) := by unfold of; rw [hn]
+
+theorem of_cyc (h : Heap) (hi : Inv h) (v : Int) (vs : List Int) :
+    ∃ r l, (of h (v :: vs)).2 = some r ∧ Cyc (of h (v :: vs)).1 (r :: l) ∧
+      (r :: l).map (of h (v :: vs)).1.val = v :: vs ∧ Inv (of h (v :: vs)).1 := by
+  obtain ⟨i1, s1, e1, n1, p1, f1⟩ := newRing_inv h hi
+  have c0 : Cyc h.newRing.1 [h.size] := ⟨by simp, by simp [Lk, n1], by simp, by intro i hi; simp at hi; omega⟩
+  obtain ⟨mid, ml, c1, i2⟩ := newLoop_cyc vs.length h.newRing.1 h.size [] i1 c0
+  have hnew : new h ((v :: vs).length : Nat) = (newLoop vs.length h.newRing.1 h.size, some h.size) := by
+    have : ¬ (((v :: vs).length : Nat) : Int) ≤ 0 := by simp only [List.length_cons]; omega
+    have h2 : (((v :: vs).length : Nat) : Int).toNat - 1 = vs.length := by simp
+    simp only [new, this, if_false, e1, h2]
+  simp only [List.append_nil] at c1
+  have hb : ∀ i ∈ h.size :: mid, i < (newLoop vs.length h.newRing.1 h.size).vals.length := by
+    intro i hi'; rw [i2.vlen]; exact c1.bound i hi'
+  obtain ⟨e1', e2', e3', _⟩ := ofLoop_spec (v :: vs) (h.size :: mid) _ h.size c1.lk c1.nodup (by simp [ml]) hb
+  simp only [List.headD_cons] at e1' e2' e3'
+  have hof := of_eq h (v :: vs) _ _ hnew
+  refine ⟨h.size, mid, by rw [hof], ?_, ?_, ?_⟩
+  · rw [hof]
+    have hsz : (ofLoop (v :: vs) (newLoop vs.length h.newRing.1 h.size) h.size).size =
+        (newLoop vs.length h.newRing.1 h.size).size := congrArg List.length e1'
+    exact cyc_frame _ _ _ c1 (by show _ ≤ (ofLoop _ _ _).size; rw [hsz]; exact Nat.le_refl _)
+      (fun k _ => by show (ofLoop _ _ _).nx k = _; simp [Heap.nx, e1'])
+  · rw [hof]; exact e3'
+  · rw [hof]
+    exact (ofLoop_inv (v :: vs) _ h.size i2).1
+
 end MdsVerif.Proofs.Ring
